@@ -1,7 +1,7 @@
 #!/bin/bash
 # usage: tv.sh <Spec> <trace.ndjson> [metadir]   -- runs TLC trace validation, prints TLC output
-SPEC=$1; TRACE=$2; MD=${3:-/verif/work/tlc.$$}
-cd /verif/spec
+SPEC=$1; TRACE=$2; R=${VERIF_ROOT:-/verif}; MD=${3:-$R/work/tlc.$$}
+cd $R/spec
 TRACE=$TRACE JAVA_TOOL_OPTIONS="-Xss1g -XX:+UseParallelGC" timeout ${TV_TIMEOUT:-1200} tlc -workers 1 -metadir $MD -cleanup -noGenerateSpecTE -config $SPEC.cfg $SPEC.tla 2>&1 | grep -v -E "^(Semantic processing|Linting|Parsing file|Picked up|State [0-9]+:|[0-9]+\. Line)" 
 rc=${PIPESTATUS[0]}
 rm -rf $MD
